@@ -143,6 +143,10 @@ func TestC19(t *testing.T) {
 			f.Root.Props = append(f.Root.Props, model.Prop{Name: "anymap", Node: &model.Node{Kind: model.KAnyOf, Branches: []*model.Node{mapOf(model.KInteger), mapOf(model.KString)}}})
 			c.Count("shape.anyof_map_branches")
 		}
+		if rapid.IntRange(0, 2).Draw(rt, "localnames") == 0 {
+			// a type named like the local twin the methods declare (Plain): the method must not call itself
+			addLocalIdentifierDefs(rt, c, f)
+		}
 		cfg := baseConfig()
 		cfg.ExtraImports = rapid.Bool().Draw(rt, "extra")
 		cs := caseOf(cfg, []string{f.RelPath}, f)
@@ -190,6 +194,22 @@ func TestC19(t *testing.T) {
 					b     []byte
 				}{"truncated", text[:cut]})
 			}
+			// the empty string at every string position (format-typed ones first)
+			var empties [][]byte
+			for pass := 0; pass < 2; pass++ {
+				for _, p := range docs.Positions(f.Root, v) {
+					if p.Val.K != jv.Str || p.Val.S == "" || (pass == 0) != (p.Node.Format != "") || len(empties) >= 14 {
+						continue
+					}
+					empties = append(empties, p.Replace(jv.StrV("")).Marshal())
+				}
+			}
+			for _, e := range empties {
+				inputs = append(inputs, struct {
+					label string
+					b     []byte
+				}{"empty-string", e})
+			}
 			muts, _ := docs.Mutants(rt, f.Root, v, kinds, &oo)
 			for k := range muts {
 				if k >= 40 {
@@ -215,7 +235,22 @@ func TestC19(t *testing.T) {
 					priors = append(priors, string(pv.Marshal()))
 				}
 			}
-			for _, in := range inputs {
+			mine := inputs
+			if d := f.Def(tn); d != nil && tn != progRoot {
+				// every definition's type also gets a document that is valid for IT
+				oo2 := *o
+				oo2.AllProps = true
+				if dv, ok := docs.Valid(rt, d, &oo2); ok {
+					mine = append(append([]struct {
+						label string
+						b     []byte
+					}{}, inputs...), struct {
+						label string
+						b     []byte
+					}{"valid-for-definition", dv.Marshal()})
+				}
+			}
+			for _, in := range mine {
 				if typedAddl[tn] && (string(in.b) == "null" || string(in.b) == "") && c.Avoid("addprops.null_input_panics") {
 					c.ExcludedMap()["addprops.null_input_panics"]++
 					continue
